@@ -176,13 +176,15 @@ int ubuf_sound_common_resize(struct ubuf *ubuf, int offset, int new_size)
 
     if (offset < 0)
         offset += common->size;
-    if (unlikely(offset < 0))
+    if (unlikely(offset < 0 || (size_t)offset > common->size))
         return UBASE_ERR_INVALID;
     if (unlikely(new_size == -1))
         new_size = common->size - offset;
+    if (unlikely(new_size < 0))
+        return UBASE_ERR_INVALID;
     if (unlikely(!offset && new_size == common->size))
         return UBASE_ERR_NONE; /* nothing to do */
-    if (unlikely(offset + new_size > common->size))
+    if (unlikely((size_t)offset + new_size > common->size))
         return UBASE_ERR_INVALID;
 
     for (uint8_t plane = 0; plane < common_mgr->nb_planes; plane++)
